@@ -69,62 +69,79 @@ theorem numberFrom_rhs {α : Type} (f : α → List Sym) : ∀ (n : Nat) (alts :
   | _, [] => rfl
   | n, a :: as => by simp [numberFrom, numberFrom_rhs f (n + 1) as]
 
+/-- a successful `_create_productions` means: distinct keys, and neither a key nor a right-hand side
+symbol is a `__` name (the assertions of the constructor) -/
 theorem createProds_wf : ∀ (prods : List (List Char × List (List (List Char)))) (n : Nat) (acc U : Prods Sym),
-    createProds n prods acc = .ok U → NoDunderRhs prods → UserWF acc →
-      UserWF U ∧ pkeys U = pkeys acc ++ prods.map (fun e => parseSym e.1)
-  | [], n, acc, U, h, _, hacc => by
+    createProds n prods acc = .ok U → UserWF acc →
+      UserWF U ∧ pkeys U = pkeys acc ++ prods.map (fun e => parseSym e.1) ∧ NoDunderRhs prods
+  | [], n, acc, U, h, hacc => by
     simp only [createProds] at h
     cases h
-    exact ⟨hacc, by simp⟩
-  | (s, alts) :: rest, n, acc, U, h, hrhs, hacc => by
+    exact ⟨hacc, by simp, by intro e he; simp at he⟩
+  | (s, alts) :: rest, n, acc, U, h, hacc => by
     simp only [createProds] at h
     split at h
     · simp at h
     · rename_i hd
       split at h
       · simp at h
-      · rename_i hdup
-        have hd' : hasDunder s = false := by simpa using hd
-        have hkey : parseSym s = ⟨s, []⟩ := parseSym_plain hd'
-        have hnew : parseSym s ∉ pkeys acc := by
-          intro hm
-          have := (dget_isSome_iff (k := parseSym s) (d := acc)).2 hm
-          exact hdup this
-        have hacc' : UserWF (acc ++ [(parseSym s,
-            (numberFrom n alts).map fun (i, p) => (⟨p.map parseSym, i⟩ : Rule Sym))]) := by
-          refine { nodup := ?_, keyUser := ?_, symUser := ?_ }
-          · simp only [pkeys, List.map_append, List.map_cons, List.map_nil]
-            rw [List.nodup_append]
-            refine ⟨hacc.nodup, by simp, ?_⟩
-            intro a ha b hb
-            simp only [List.mem_singleton] at hb
-            subst hb
-            intro e; subst e; exact hnew ha
-          · intro k hk
-            simp only [pkeys, List.map_append, List.map_cons, List.map_nil, List.mem_append,
-              List.mem_singleton] at hk
-            rcases hk with hk | hk
-            · exact hacc.keyUser k hk
-            · rw [hk, hkey]
-          · intro x hx
-            obtain ⟨k, rules, hm, r, hr, hxr⟩ := mem_psyms.1 hx
-            simp only [List.mem_append, List.mem_singleton, Prod.mk.injEq] at hm
-            rcases hm with hm | ⟨_, hm⟩
-            · exact hacc.symUser x (mem_psyms.2 ⟨k, rules, hm, r, hr, hxr⟩)
-            · subst hm
-              have : r.rhs ∈ alts.map (fun p => p.map parseSym) := by
-                rw [← numberFrom_rhs (fun p => p.map parseSym) n alts]
-                exact List.mem_map.2 ⟨r, hr, rfl⟩
-              obtain ⟨p, hp, hpr⟩ := List.mem_map.1 this
-              rw [← hpr] at hxr
-              obtain ⟨nm, hnm, hx'⟩ := List.mem_map.1 hxr
-              have := hrhs (s, alts) (by simp) p hp nm hnm
-              rw [← hx', parseSym_plain this]
-        obtain ⟨w, hk⟩ := createProds_wf rest _ _ U h
-          (fun e he => hrhs e (List.mem_cons_of_mem _ he)) hacc'
-        refine ⟨w, ?_⟩
-        rw [hk]
-        simp [pkeys]
+      · rename_i hrhs0
+        split at h
+        · simp at h
+        · rename_i hdup
+          have hd' : hasDunder s = false := by simpa using hd
+          have hrhs1 : ∀ p ∈ alts, ∀ nm ∈ p, hasDunder nm = false := by
+            intro p hp nm hnm
+            cases hh : hasDunder nm with
+            | false => rfl
+            | true =>
+              exfalso
+              apply hrhs0
+              simp only [List.any_eq_true]
+              exact ⟨p, hp, nm, hnm, hh⟩
+          have hkey : parseSym s = ⟨s, []⟩ := parseSym_plain hd'
+          have hnew : parseSym s ∉ pkeys acc := by
+            intro hm
+            have := (dget_isSome_iff (k := parseSym s) (d := acc)).2 hm
+            exact hdup this
+          have hacc' : UserWF (acc ++ [(parseSym s,
+              (numberFrom n alts).map fun (i, p) => (⟨p.map parseSym, i⟩ : Rule Sym))]) := by
+            refine { nodup := ?_, keyUser := ?_, symUser := ?_ }
+            · simp only [pkeys, List.map_append, List.map_cons, List.map_nil]
+              rw [List.nodup_append]
+              refine ⟨hacc.nodup, by simp, ?_⟩
+              intro a ha b hb
+              simp only [List.mem_singleton] at hb
+              subst hb
+              intro e; subst e; exact hnew ha
+            · intro k hk
+              simp only [pkeys, List.map_append, List.map_cons, List.map_nil, List.mem_append,
+                List.mem_singleton] at hk
+              rcases hk with hk | hk
+              · exact hacc.keyUser k hk
+              · rw [hk, hkey]
+            · intro x hx
+              obtain ⟨k, rules, hm, r, hr, hxr⟩ := mem_psyms.1 hx
+              simp only [List.mem_append, List.mem_singleton, Prod.mk.injEq] at hm
+              rcases hm with hm | ⟨_, hm⟩
+              · exact hacc.symUser x (mem_psyms.2 ⟨k, rules, hm, r, hr, hxr⟩)
+              · subst hm
+                have : r.rhs ∈ alts.map (fun p => p.map parseSym) := by
+                  rw [← numberFrom_rhs (fun p => p.map parseSym) n alts]
+                  exact List.mem_map.2 ⟨r, hr, rfl⟩
+                obtain ⟨p, hp, hpr⟩ := List.mem_map.1 this
+                rw [← hpr] at hxr
+                obtain ⟨nm, hnm, hx'⟩ := List.mem_map.1 hxr
+                have := hrhs1 p hp nm hnm
+                rw [← hx', parseSym_plain this]
+          obtain ⟨w, hk, hr⟩ := createProds_wf rest _ _ U h hacc'
+          refine ⟨w, ?_, ?_⟩
+          · rw [hk]; simp [pkeys]
+          · intro e he
+            simp only [List.mem_cons] at he
+            rcases he with he | he
+            · subst he; exact hrhs1
+            · exact hr e he
 
 /-! ### from dictionaries to the parser-level record -/
 
